@@ -6,60 +6,10 @@ From GmsmVerif Require Import Lib.Outcome SM4.SM4Spec SM4.ModesModel SM4.ModesPr
 Import ListNotations.
 Local Open Scope nat_scope.
 
-(* h extends h0: the arrays of h0 are still there, unchanged *)
-Definition ext (h0 h : heap) : Prop := length h0 <= length h /\ forall a, a < length h0 -> array h a = array h0 a.
-(* a slice into an array that did not exist in h0 *)
-Definition fresh (h0 : heap) (s : slice) : Prop := length h0 <= s_arr s.
-
-Lemma ext_refl h : ext h h.
-Proof. split; [lia|reflexivity]. Qed.
-
-Lemma array_app_old (h : heap) x a : a < length h -> array (h ++ [x]) a = array h a.
-Proof. intros H. unfold array. apply app_nth1. exact H. Qed.
-
-Lemma array_app_new (h : heap) x : array (h ++ [x]) (length h) = x.
-Proof. unfold array. rewrite app_nth2, Nat.sub_diag by lia. reflexivity. Qed.
-
-Lemma array_set_other (h : heap) a b v : a <> b -> array (set_nth h b v) a = array h a.
-Proof. intros H. unfold array. apply nth_set_nth_other. exact H. Qed.
-
-Lemma array_set_same (h : heap) a v : a < length h -> array (set_nth h a v) a = v.
-Proof. intros H. unfold array. apply nth_set_nth_same. exact H. Qed.
-
-Lemma ext_app h0 h x : ext h0 h -> ext h0 (h ++ [x]).
-Proof.
-  intros [H1 H2]. split; [rewrite app_length; lia|]. intros a Ha. rewrite array_app_old by lia. apply H2, Ha.
-Qed.
-
-Lemma ext_set h0 h b v : ext h0 h -> length h0 <= b -> ext h0 (set_nth h b v).
-Proof.
-  intros [H1 H2] Hb. split; [rewrite set_nth_length; exact H1|].
-  intros a Ha. rewrite array_set_other by lia. apply H2, Ha.
-Qed.
-
-Lemma make_ext h0 h l c : ext h0 h -> ext h0 (fst (make h l c)) /\ fresh h0 (snd (make h l c)).
-Proof. intros H. unfold make, fresh. cbn [fst snd s_arr]. split; [apply ext_app, H|apply H]. Qed.
-
-Lemma copy_into_ext h0 h d src : ext h0 h -> fresh h0 d -> ext h0 (copy_into h d src).
-Proof. intros H Hd. unfold copy_into. apply ext_set; assumption. Qed.
-
-Lemma append_ext h0 h s bs : ext h0 h -> fresh h0 s -> ext h0 (fst (append h s bs)) /\ fresh h0 (snd (append h s bs)).
-Proof.
-  intros H Hs. unfold append. destruct (Nat.leb _ _); cbn [fst snd]; unfold fresh; cbn [s_arr].
-  - split; [apply ext_set; assumption|exact Hs].
-  - split; [apply ext_app, H|apply H].
-Qed.
-
 Lemma append_nil_ext h0 h bs : ext h0 h -> ext h0 (fst (append_nil h bs)) /\ fresh h0 (snd (append_nil h bs)).
 Proof. intros H. unfold append_nil, fresh. cbn [fst snd s_arr]. split; [apply ext_app, H|apply H]. Qed.
 
 (* ---------- what the fresh slices hold -------------------------------------------------------------------- *)
-Lemma firstn_zeros n m : n <= m -> firstn n (repeat 0%N m) = repeat 0%N n.
-Proof. revert m. induction n as [|n IH]; intros [|m] H; try reflexivity; [lia|]. cbn. rewrite IH by lia. reflexivity. Qed.
-
-Lemma skipn_zeros n m : skipn n (repeat 0%N m) = repeat 0%N (m - n).
-Proof. revert m. induction n as [|n IH]; intros [|m]; try reflexivity. cbn [skipn repeat Nat.sub]. apply IH. Qed.
-
 Lemma copy_fresh_value (t : nat) (src : list N) :
   write_at (repeat 0%N t) 0 (firstn (Nat.min t (length src)) src) = firstn t (src ++ repeat 0%N t).
 Proof.
@@ -148,14 +98,6 @@ Proof.
   destruct (lenAB_mem_spec h0 h2 (N.of_nat (length A) * 8) (N.of_nat (length C) * 8) E2) as [E3 R3].
   destruct (lenAB_mem h2 _ _) as [h3 lenAB]. cbn [fst snd] in *.
   split; [exact E3|]. rewrite R1, R2, R3. reflexivity.
-Qed.
-
-Lemma read_ext h0 h s : ext h0 h -> s_arr s < length h0 -> read h s = read h0 s.
-Proof. intros [_ H] Hs. unfold read. rewrite H by exact Hs. reflexivity. Qed.
-
-Lemma ext_trans h0 h1 h2 : ext h0 h1 -> ext h1 h2 -> ext h0 h2.
-Proof.
-  intros [L1 A1] [L2 A2]. split; [lia|]. intros a Ha. rewrite A2 by lia. apply A1, Ha.
 Qed.
 
 Lemma append_inplace h s bs : s_len s + length bs <= s_cap s ->
